@@ -45,7 +45,7 @@ def drv(NA, NB=None, elem=0, **kw):
     return d
 
 
-NT, TM, MO, MOT, CO, TRIV, INT, MA, MC, FLT, SW, PM = range(12)
+NT, TM, MO, MOT, CO, TRIV, INT, MA, MC, FLT, SW, PM, NC = range(13)
 
 
 def traits_mc(pocca, pocma, pocs, ae):
@@ -175,7 +175,16 @@ def jobs_for(tier, seed):
         J.append(job(one(2), drv(2, elem=TRIV, CONSTRUCT=2), 0, 1200, {'one', 'triv'}, 'one N=2 trivially copyable, construct-only allocator marking value-construction'))
         J.append(job(one(0), drv(0, elem=NT, CONSTRUCT=2), 1, 500, {'one', 'fault', 'tracked'}, 'one N=0 nothrow-move, construct-only allocator marking value-construction'))
         J.append(job(one(2, nothrow=False), drv(2, elem=TM, CONSTRUCT=3, std='c++14'), 1, 400, {'one', 'fault', 'tracked'}, 'one N=2 throwing-move, destroy-only allocator, C++14'))
+        # a handle-like element: copying cannot throw either, moving still alters the source -- the only flavour for which
+        # is_nothrow_copy_constructible / is_nothrow_constructible<T, const T&> holds together with an observable move
+        J.append(job(one(2), drv(2, elem=NC), 1, 900, {'one', 'fault', 'tracked'}, 'one N=2 nothrow-copy + nothrow-move (handle-like) element'))
+        J.append(job(two(2, 3, **traits_mc(0, 0, 0, 0)), drv(2, 3, elem=NC), 0, 400, {'two', 'tracked', 'traits', 'mixedN'}, 'two N=2,3 nothrow-copy + nothrow-move (handle-like) element'))
     else:
+        for N in (0, 2, 3):
+            J.append(job(one(N, maxlen=5, maxcnt=3), drv(N, elem=NC), 1, None, {'one', 'fault', 'tracked'}, 'one N=%d nothrow-copy + nothrow-move (handle-like) element, all single faults' % N))
+        for (na, nb, tr) in ((2, 2, (0, 0, 0, 0)), (2, 3, (1, 1, 1, 0)), (3, 2, (0, 0, 0, 1)), (0, 2, (0, 1, 0, 0))):
+            J.append(job(two(na, nb, **traits_mc(*tr)), drv(na, nb, elem=NC, **traits_drv(*tr)), 1, 5000, {'two', 'tracked', 'traits', 'fault', 'mixedN'},
+                         'two N=%d,%d traits %d%d%d%d nothrow-copy + nothrow-move (handle-like) element' % ((na, nb) + tr)))
         for N, el, cp, nt in ((2, NT, True, True), (0, NT, True, True), (3, TM, True, False), (0, TM, True, False),
                               (2, MO, False, True), (3, MOT, False, False), (1, CO, True, True)):
             J.append(job(one(N, copyable=cp, nothrow=nt, maxlen=5, maxcnt=3), drv(N, elem=el), 1, None,
